@@ -78,19 +78,21 @@ type Action struct {
 }
 
 type World struct {
-	mu      sync.Mutex
-	jmu     sync.Mutex
-	cfg     *Cfg
-	jw      *journal.Writer
-	tape    *Tape
-	cl      *Cluster
-	members []*Member
-	epoch   int
-	step    int
-	t0      time.Time
-	wake    chan struct{}
-	done    bool
-	quiet   bool // quiesce phase: no faults, no workload
+	mu       sync.Mutex
+	jmu      sync.Mutex
+	cfg      *Cfg
+	jw       *journal.Writer
+	tape     *Tape
+	cl       *Cluster
+	members  []*Member
+	epoch    int
+	step     int
+	t0       time.Time
+	wake     chan struct{}
+	done     bool
+	yields   []*yieldRec
+	yieldSeq int
+	quiet    bool // quiesce phase: no faults, no workload
 
 	scriptSReq func(cn *Conn, vb int, start uint64) (replyVariant, bool)
 	scriptFlog func(vb int) []FEntry
@@ -280,6 +282,21 @@ func (w *World) enabled() []Action {
 			w.mu.Unlock()
 		}})
 	}
+	// 1d. goroutines parked at armed pre-emption points
+	for _, y := range w.yields {
+		y := y
+		acts = append(acts, Action{ID: fmt.Sprintf("resume|%s|%d", y.site, y.n), W: cfg.W.Reply, Do: func() {
+			w.mu.Lock()
+			for i, z := range w.yields {
+				if z == y {
+					w.yields = append(append([]*yieldRec{}, w.yields[:i]...), w.yields[i+1:]...)
+					break
+				}
+			}
+			w.mu.Unlock()
+			close(y.ch)
+		}})
+	}
 	// 2. DCP emissions
 	for _, s := range w.sortedStreams() {
 		s := s
@@ -314,8 +331,8 @@ func (w *World) enabled() []Action {
 			booting = true
 		}
 	}
-	if pendingReplies && (!cfg.DelayFaults || booting && !cfg.BootFaults) || w.scn.HoldClock(w) {
-		advW, advEvW = 0, 0
+	if pendingReplies && (!cfg.DelayFaults || booting && !cfg.BootFaults) || w.scn.HoldClock(w) || len(w.yields) > 0 {
+		advW, advEvW = 0, 0 // (a pre-empted goroutine is resumed before any fake time passes: a pre-emption is not a delay)
 	}
 	if cfg.MaxReplyDelay > 0 && pendingReplies {
 		// bounded delay: once some request has waited this long the clock stops until it is answered
@@ -672,4 +689,28 @@ func randDraws() uint64 {
 		return 0
 	}
 	return randDrawsFn()
+}
+
+// yieldRec is one goroutine parked at a pre-emption point (see tools/instrument yieldSites).
+type yieldRec struct {
+	site string
+	n    int
+	ch   chan struct{}
+}
+
+// yieldHook is installed as vsync.YieldHook: sites armed for this run park the goroutine until the
+// scheduler picks its "resume" action; in the quiesce phase nothing parks any more.
+func (w *World) yieldHook(site string) {
+	w.mu.Lock()
+	if !w.cfg.YieldSites[site] || w.quiet {
+		w.mu.Unlock()
+		return
+	}
+	w.yieldSeq++
+	y := &yieldRec{site: site, n: w.yieldSeq, ch: make(chan struct{})}
+	w.yields = append(w.yields, y)
+	w.mu.Unlock()
+	w.jl(&journal.Ev{K: journal.KProbe, Vb: -1, S: "parked-at:" + site})
+	w.poke()
+	<-y.ch
 }
